@@ -1,2 +1,8 @@
 #!/bin/sh
-exit 0
+# Builds the gosym engine offline from files on disk only.
+set -e
+export GOFLAGS=-mod=mod GOPROXY=off GOSUMDB=off GOTOOLCHAIN=local
+cd /verif/engine
+mkdir -p /verif/bin /verif/evidence
+go build -o /verif/bin/check .
+echo "built /verif/bin/check"
